@@ -1,6 +1,10 @@
 """C04 — every run ends once, and its stream ends with the matching terminal event."""
 from __future__ import annotations
 
+import asyncio
+
+from worlds import events as EV
+from worlds.engine import build_workflow
 from worlds.engine_common import simulate
 
 ID = "C04"
@@ -19,12 +23,12 @@ COMPONENTS = {"real": ["workflows.* engine incl. WorkflowHandler.stream_events a
               "stub": ["llama_index_instrumentation"], "sim": ["loop, clock, executor"]}
 ASSUMPTIONS = ["SystemExit/KeyboardInterrupt/CancelledError are never raised by generated steps (asyncio gives them loop-stopping semantics)",
                "stream-hang is judged only at simulator quiescence after the handler is done"]
-EXPECTED_PROBES = ["outcome:result", "outcome:failed", "outcome:cancelled", "outcome:timeout", "ended-with-bodies-running"]
+EXPECTED_PROBES = ["run-id-reuse-refused", "outcome:result", "outcome:failed", "outcome:cancelled", "outcome:timeout", "ended-with-bodies-running"]
 LEVEL_TEXT = ("Seeded exploration over outcome kinds and end-of-run races; oracle on the publish-side record (terminal "
               "event count/kind/position) and on consumer termination at quiescence.")
 LEVEL_NOTE = "Trusted: simulator loop, recording adapter decorator."
 
-CFG = {"driver": "result", "p_retry": 40, "p_fail": 30, "p_cancel": 25, "timeouts": [None, None, 2, 4, 7],
+CFG = {"exc_pool": ["ValueError", "SimStepError", "KeyError", "SimApiError"], "driver": "result", "p_retry": 40, "p_fail": 30, "p_cancel": 25, "timeouts": [None, None, 2, 4, 7],
        "p_pred_raises": 6, "p_nonevent": 4, "p_baseexc": 2, "p_stream": 50, "p_ret_none": 10, "fan_max": 3,
        "p_collect": 45, "p_wait": 12, "p_ticker": 35, "p_user_policy": 30, "wait_timeouts": [None, 4, 10]}
 
@@ -110,6 +114,58 @@ def _end_observed_seq(recs, term_seq, okind):
     return done[-1] if done else seq
 
 
+# run-id re-use arm: a first run finishes while nobody consumes its stream and its handler is still referenced; a second run is
+# started on the same workflow instance under the SAME run id. Either the runtime refuses it, or the second run's consumer must see
+# exactly that run's events, ending with its one terminal event.
+async def scenario_reuse(world, spec):
+    wf = build_workflow(spec, world)
+    s1 = EV.Start0(uid=world.uid())
+    world.trace.log("emit", uid=s1.uid, ev="Start0", by="ext", via="start", target=None, parent=-1, inv=0)
+    h1 = wf.run(start_event=s1, run_id="run1")          # no consumer attached
+    q = world.loop.quiesce()
+    await asyncio.wait([q, h1._result_task], return_when=asyncio.FIRST_COMPLETED)
+    out = {"first_done": h1.is_done(), "refused": None, "keep": h1}
+    if not h1.is_done():
+        return out
+    mark = world.trace.log("reuse-start")
+    s2 = EV.Start0(uid=world.uid())
+    try:
+        h2 = wf.run(start_event=s2, run_id="run1")
+    except Exception as e:  # noqa: BLE001
+        out["refused"] = f"{type(e).__name__}"
+        world.probe("run-id-reuse-refused")
+        return out
+    world.probe("run-id-reuse-accepted")
+    world.trace.log("emit", uid=s2.uid, ev="Start0", by="ext", via="start", target=None, parent=-1, inv=0)
+    consumer = asyncio.ensure_future(world.consume(h2, "c2"))
+    q2 = world.loop.quiesce()
+    await asyncio.wait([q2, h2._result_task], return_when=asyncio.FIRST_COMPLETED)
+    if not consumer.done():
+        q3 = world.loop.quiesce()
+        await asyncio.wait([q3, consumer], return_when=asyncio.FIRST_COMPLETED)
+    out.update(mark=mark, second_done=h2.is_done(), consumer_done=consumer.done())
+    consumer.cancel()
+    return out
+
+
+def check_reuse(world, spec, outcome) -> None:
+    world._nt = bool(outcome and outcome.get("first_done"))
+    if not outcome or not outcome.get("first_done") or outcome.get("refused") or "mark" not in outcome:
+        return
+    mark = outcome["mark"]
+    pubs = [f["ev"] for seq, _, k, f in world.trace.recs if k == "publish" and seq > mark]
+    seen = [f["ev"] for seq, _, k, f in world.trace.recs if k == "consume" and f.get("c") == "c2"]
+    terms_seen = [e for e in seen if e in TERMINAL]
+    if outcome.get("second_done") and (seen != pubs or len(terms_seen) != 1 or seen[-1:] != terms_seen):
+        world.violate("C04.stream-view", f"second run under a re-used run id: its consumer saw {seen[:6]}{'...' if len(seen) > 6 else ''} ({len(terms_seen)} terminal events) "
+                      f"but the run published {pubs[:6]}{'...' if len(pubs) > 6 else ''}", how="reused-run-id")
+    elif outcome.get("second_done") and not outcome.get("consumer_done"):
+        world.violate("C04.stream-hang", "stream_events() consumer of the second run (re-used run id) still blocked at quiescence", outcome="reuse", engine_side="none",
+                      terminal_published=True)
+
+
 def run(tape):
+    if tape.draw(12, "c04.arm") == 0:
+        return simulate(tape, dict(CFG, p_cancel=0, timeouts=[None], p_baseexc=0, p_pred_raises=0), check_reuse, scenario=scenario_reuse, nontrivial=lambda w, s, o: w._nt)
     res = simulate(tape, CFG, check, nontrivial=lambda w, s, o: w._nt)
     return res
